@@ -59,3 +59,113 @@ pub fn must_chunk(bytes: &[u8]) -> Chunk {
         }
     }
 }
+
+/// Integer literals that appear in the library's own sources (read from the working tree being checked), plus the
+/// usual boundary values. Used as candidate field values so that a decision that hinges on one particular constant
+/// (a firmware revision, a board id, a sentinel) is exercised even though no random draw would ever hit it.
+pub fn source_dictionary(subdir: &str) -> Vec<u64> {
+    fn walk(dir: &std::path::Path, out: &mut Vec<std::path::PathBuf>) {
+        if let Ok(rd) = std::fs::read_dir(dir) {
+            let mut es: Vec<_> = rd.flatten().map(|e| e.path()).collect();
+            es.sort();
+            for p in es {
+                if p.is_dir() {
+                    walk(&p, out)
+                } else if p.extension().map_or(false, |e| e == "rs") {
+                    out.push(p)
+                }
+            }
+        }
+    }
+    let mut files = Vec::new();
+    walk(&std::path::Path::new(&crate::core::repo_root()).join(subdir), &mut files);
+    let mut set = std::collections::BTreeSet::new();
+    for v in [0u64, 1, 2, 3, 0x7F, 0x80, 0xFF, 0x100, 0x7FFF, 0x8000, 0xFFFF, 0x1_0000, 0x7FFF_FFFF, 0x8000_0000, 0xFFFF_FFFE, 0xFFFF_FFFF, u64::MAX] {
+        set.insert(v);
+    }
+    for f in files {
+        let Ok(t) = std::fs::read(&f) else { continue };
+        let mut i = 0;
+        while i < t.len() {
+            let c = t[i];
+            let prev_ok = i == 0 || !(t[i - 1].is_ascii_alphanumeric() || t[i - 1] == b'_' || t[i - 1] == b'.');
+            if c.is_ascii_digit() && prev_ok {
+                let (radix, mut j) = if c == b'0' && i + 1 < t.len() && (t[i + 1] == b'x' || t[i + 1] == b'X') {
+                    (16, i + 2)
+                } else if c == b'0' && i + 1 < t.len() && t[i + 1] == b'b' {
+                    (2, i + 2)
+                } else {
+                    (10, i)
+                };
+                let mut v: Option<u64> = Some(0);
+                let mut nd = 0;
+                while j < t.len() {
+                    let d = t[j];
+                    if d == b'_' {
+                        j += 1;
+                        continue;
+                    }
+                    let Some(dv) = (d as char).to_digit(radix) else { break };
+                    v = v.and_then(|v| v.checked_mul(radix as u64)).and_then(|v| v.checked_add(dv as u64));
+                    nd += 1;
+                    j += 1;
+                }
+                // a float literal (1.5, 62.5e6) is not an integer constant
+                let is_float = radix == 10 && j < t.len() && (t[j] == b'.' && j + 1 < t.len() && t[j + 1].is_ascii_digit() || t[j] == b'e');
+                if let (Some(v), true, false) = (v, nd > 0, is_float) {
+                    set.insert(v);
+                }
+                // skip a type suffix / the rest of an identifier-like tail
+                while j < t.len() && (t[j].is_ascii_alphanumeric() || t[j] == b'_') {
+                    j += 1;
+                }
+                i = j.max(i + 1);
+            } else {
+                i += 1;
+            }
+        }
+    }
+    set.into_iter().collect()
+}
+
+/// "Two conditions jointly." One field of a valid seed is set to a dictionary value (at byte offset `offset`, widths
+/// 1, 2 and 4, little endian, values that need that width); `f` sees that input, and then the same input with, on top,
+/// every single-bit flip and every byte forced to 0x00 / 0xFF inside `region`. `fix` re-establishes checksums.
+pub fn dict_pairs(seed: &[u8], offset: usize, region: std::ops::Range<usize>, dict: &[u64], fix: impl Fn(&mut Vec<u8>), mut f: impl FnMut(&[u8])) -> u64 {
+    let mut n = 0;
+    for w in [1usize, 2, 4] {
+        if offset + w > seed.len() {
+            continue;
+        }
+        let lo: u64 = if w == 1 { 0 } else { 1 << (4 * w) };
+        let hi: u64 = 1 << (8 * w);
+        for &v in dict.iter().filter(|&&v| v >= lo && v < hi) {
+            let mut a = seed.to_vec();
+            a[offset..offset + w].copy_from_slice(&v.to_le_bytes()[..w]);
+            let mut x = a.clone();
+            fix(&mut x);
+            f(&x);
+            n += 1;
+            for p in region.clone() {
+                if p >= offset && p < offset + w {
+                    continue;
+                }
+                for k in 0..10 {
+                    let mut x = a.clone();
+                    match k {
+                        0..=7 => x[p] ^= 1 << k,
+                        8 => x[p] = 0,
+                        _ => x[p] = 0xFF,
+                    }
+                    if x[p] == a[p] {
+                        continue;
+                    }
+                    fix(&mut x);
+                    f(&x);
+                    n += 1;
+                }
+            }
+        }
+    }
+    n
+}
